@@ -450,7 +450,7 @@ def main(argv):
                                    for _ in range(n)).replace(b"\n", b"").replace(b"\r", b"").replace(b"\x00", b"a"))
     data = b"".join(l + b"\n" for l in good_lines)
     for width in (1, 2, 3, 4, 5, 7, 10, 40):
-        for extra in ([], ["-s"]):
+        for extra in ([], ["-s"], ["-d", ",.\u3002\u20ac"], ["-s", "-d", "\u00e9 "]):
             seen_path = os.path.join(SCRATCH, "pieces")
             os.makedirs(SCRATCH, exist_ok=True)
             if os.path.exists(seen_path):
